@@ -2,5 +2,5 @@
 EXTENDS Address, Json
 AllLens == 0..1024
 Export == outcome # "pending" =>
-  PrintT("REPLAY " \o ToJson([style |-> style, kind |-> a.kind, n |-> a.n, tail |-> tail, expect |-> outcome]))
+  PrintT("REPLAY " \o ToJson([style |-> style, kind |-> a.kind, n |-> a.n, shape |-> a.shape, tail |-> tail, expect |-> outcome]))
 =============================================================================
